@@ -24,6 +24,7 @@ import (
 	"github.com/containerd/nri/pkg/net/multiplex"
 	"github.com/containerd/nri/pkg/vhook"
 
+	"verif/harness/isolate"
 	"verif/harness/rawpeer"
 	"verif/harness/rec"
 )
@@ -570,7 +571,17 @@ func (r *run) exec(sc Scenario, w *rec.Writer) error {
 		ok, ms := timed(watchdog, func() { _, e = c.Write([]byte("x")) })
 		r.ev("post.write", "end", end, "conn", id, "class", errClass(e), "hung", !ok, "ms", ms)
 	}
-	la.Close()
+	// the listener is closed by several goroutines at once (closing concurrently never panics or hangs)
+	{
+		var cw sync.WaitGroup
+		for k := 0; k < 6; k++ {
+			cw.Add(1)
+			go func() { defer cw.Done(); la.Close() }()
+		}
+		if ok, _ := timed(watchdog, cw.Wait); !ok {
+			r.ev("accept", "n", 3, "got", false, "class", "", "hung", true)
+		}
+	}
 	select {
 	case cls := <-acc2:
 		r.ev("accept", "n", 2, "got", false, "class", cls, "hung", false)
@@ -611,7 +622,10 @@ func Run(in, out string, seed int64, skip int) (int, error) {
 		if r.scn <= skip {
 			continue
 		}
-		if err := r.exec(s, w); err != nil {
+		done := isolate.Guard(60*time.Second, fmt.Sprintf("mux scenario %d", r.scn))
+		err := r.exec(s, w)
+		done()
+		if err != nil {
 			return 0, fmt.Errorf("scenario %d: %w", r.scn, err)
 		}
 	}
